@@ -142,6 +142,8 @@ static void run(const Case &cs, Info &info, const std::string &tmpdir) {
         case F_reserveBanks: opn2_reserveBanks(d, (unsigned)(k.a < 0 ? 0 : k.a % 300)); break;
         case F_getBank: {
             OPN2_BankId id; id.percussive = a8; id.msb = b8; id.lsb = c8; OPN2_Bank b;
+            // every second call draws the id from a pool of 16 that share two hash buckets of the bank map (collision chains, re-creation after removal)
+            if(k.d & 8) { static const uint8_t pm[4] = {0, 2, 4, 1}; id.percussive = a8 & 1; id.msb = pm[b8 & 3]; id.lsb = c8 & 1; }
             int flags = (int)(k.d % 4 == 0 ? 0 : (k.d % 4 == 1 ? OPNMIDI_Bank_Create : (k.d % 4 == 2 ? OPNMIDI_Bank_CreateRt : 0)));
             int r = opn2_getBank(d, &id, flags, &b);
             if(id.percussive > 1 || id.msb > 127 || id.lsb > 127) VCHECK(r == -1, "getBank accepted invalid id %u:%u:%u", id.percussive, id.msb, id.lsb);
@@ -166,7 +168,9 @@ static void run(const Case &cs, Info &info, const std::string &tmpdir) {
             }
             break;
         }
-        case F_iterBanks: { OPN2_Bank b; int r = opn2_getFirstBank(d, &b); size_t n = 0; while(r == 0 && n < 40000) { OPN2_BankId id; opn2_getBankId(d, &b, &id); r = opn2_getNextBank(d, &b); n++; } VCHECK(n < 40000, "bank iteration does not end"); break; }
+        case F_iterBanks: { OPN2_Bank b; int r = opn2_getFirstBank(d, &b); size_t n = 0;
+            if(r == 0) { OPN2_BankId id; if(opn2_getBankId(d, &b, &id) == 0) handles[(unsigned)((id.percussive << 16) | (id.msb << 8) | id.lsb)] = b; } // the first bank's handle can be used like any other
+            while(r == 0 && n < 40000) { OPN2_BankId id; opn2_getBankId(d, &b, &id); r = opn2_getNextBank(d, &b); n++; } VCHECK(n < 40000, "bank iteration does not end"); break; }
         case F_setLfoEnabled: opn2_setLfoEnabled(d, ai); break;
         case F_getLfoEnabled: opn2_getLfoEnabled(d); break;
         case F_setLfoFrequency: opn2_setLfoFrequency(d, ai); break;
@@ -387,6 +391,26 @@ static rc::Gen<Call> genCallRt() {
     });
     return rt;
 }
+// third profile: bank-map churn (create / real-time create / lookup / remove / iterate / reserve / bank loads over ids that collide in the
+// map's hash buckets, instrument reads and writes) interleaved with notes, audio and anything else
+static rc::Gen<Call> genCallBank() {
+    using namespace rc;
+    auto any = rng<int>(0, 255);
+    auto bank = gen::weightedOneOf<Call>({
+        {30, gen::map(gen::tuple(any, any, any, rng<int>(0, 3)), [](std::tuple<int, int, int, int> t) { return mk(F_getBank, std::get<0>(t), std::get<1>(t), std::get<2>(t), 8 + std::get<3>(t)); })},   // pooled (colliding) ids, all four flag values
+        {18, gen::map(any, [](int v) { return mk(F_removeBank, v, 0, 0, 0); })},
+        {8, gen::just(mk(F_iterBanks, 0, 0, 0, 0))},
+        {4, gen::map(gen::tuple(any, any), [](std::tuple<int, int> t) { return mk(F_getInstrument, std::get<0>(t), std::get<1>(t) % 130, 0, 0); })},
+        {4, gen::map(gen::tuple(any, any, any, any), [](std::tuple<int, int, int, int> t) { return mk(F_setInstrument, std::get<0>(t), std::get<1>(t) % 130, std::get<2>(t), std::get<3>(t)); })},
+        {3, gen::map(gen::elementOf(std::vector<long long>{0, 1, 2, 5, 17, 40}), [](long long v) { return mk(F_reserveBanks, v, 0, 0, 0); })},
+        {2, gen::map(any, [](int v) { return mk(F_getBankId, v, 0, 0, 0); })},
+        {2, gen::map(gen::elementOf(std::vector<long long>{0, 0, 1, 2}), [](long long v) { return mk(F_openBankData, v, 0, 0, 0); })},
+        {4, gen::map(gen::tuple(gen::elementOf(std::vector<long long>{0, 9}), gen::elementOf(std::vector<long long>{60, 36, 64}), rng<int>(0, 127)), [](std::tuple<long long, long long, int> t) { return mk(F_rt_noteOn, std::get<0>(t), std::get<1>(t), std::get<2>(t), 0); })},
+        {2, gen::map(gen::elementOf(std::vector<long long>{2, 64, 600}), [](long long v) { return mk(F_generate, v, 0, 0, 0); })},
+        {3, genCall()},
+    });
+    return bank;
+}
 namespace rc { template <> struct Arbitrary<Call> { static Gen<Call> arbitrary() { return genCall(); } }; }
 void showValue(const Call &k, std::ostream &os) { os << fname[k.fn] << "(" << k.a << "," << k.b << "," << k.c << "," << k.d << ")"; }
 
@@ -420,6 +444,19 @@ int main(int argc, char **argv) {
             Stats &st = ctx().stats;
             st.note_case(s, info.groups.size() >= 3 && info.boundary);
             st.label("profile:rt_heavy");
+        });
+    });
+    pbt("c03_bank_heavy_sequences", c.n, maxlen, [&]() {
+        Case cs; cs.rate_idx = 0;
+        cs.calls.push_back(mk(F_switchEmulator, 4, 0, 0, 0)); cs.calls.push_back(mk(F_setNumChips, 1, 0, 0, 0)); if(*rng<int>(0, 1)) cs.calls.push_back(mk(F_openBankData, 0, 0, 0, 0));
+        std::vector<Call> body = *rc::gen::container<std::vector<Call>>(genCallBank());
+        cs.calls.insert(cs.calls.end(), body.begin(), body.end());
+        std::string s = ser(cs);
+        run_case(s, [&] {
+            Info info; run(cs, info, tmp);
+            Stats &st = ctx().stats;
+            st.note_case(s, info.groups.size() >= 3 && info.boundary);
+            st.label("profile:bank_heavy");
         });
     });
     return finish();
